@@ -42,7 +42,9 @@ def g_c02(rng, tier):
     return gen.gen_ctx_case(rng, nps=["none"], lps=gen.LIN_KINDS, max_ops=6 if tier == "quick" else 14, max_rows=30 if tier == "quick" else 80)
 
 def g_c03(rng, tier):
-    return gen.gen_ctx_case(rng, nps=["radius", "knearest"], max_ops=6 if tier == "quick" else 12, max_rows=30 if tier == "quick" else 60)
+    # a quarter of the cases with a single feature (every metric of the Minkowski family is |x - q| there, sqeuclidean is not)
+    return gen.gen_ctx_case(rng, nps=["radius", "knearest"], max_ops=6 if tier == "quick" else 12, max_rows=30 if tier == "quick" else 60,
+                            force_dim=1 if rng.random() < 0.25 else None)
 
 def g_any(rng, tier):
     if rng.random() < 0.4:
